@@ -155,6 +155,31 @@ def run(ctx: Ctx):
                     ctx.violation(f"{op}: {what} ({c['foreign'] if op != 'sensor' else c['s2']}) is accepted where {c['own'] if op != 'sensor' else c['s1']} "
                                   f"is expected and its values are bound by position (result identical to passing the same numbers under the right names)",
                                   {"case": c, "op": op, "observed": o}, key="foreign-names-bound-by-position")
+    # ---------------- declaration order of the per-sensor noise dictionaries: a fit whose optimiser returns its starting
+    # point hands every named noise value back under its own name
+    ojobs = []
+    for i in range(3 if ctx.tier == "quick" else 30):
+        d = M.gen_linear_definition(ctx.rng, singular=False)
+        keys = ctx.rng.sample(M.SENSOR_POOL, 3)
+        d["sensors"] = {k: {r: M.add(M.var(ctx.rng.choice(d["state"])), M.mul(M.num(1, 4), M.var(ctx.rng.choice(d["state"]))))
+                            for r in ctx.rng.sample(M.READING_POOL, 1 + j % 2)} for j, k in enumerate(keys)}
+        vals = ctx.rng.sample([0.25, 0.5, 1.0, 2.0, 4.0, 0.125, 8.0], 6)
+        d["sensor_noise"] = {k: {r: vals.pop() for r in rd} for k, rd in d["sensors"].items()}
+        width = len(d["control"]) + sum(len(r) for r in d["sensors"].values())
+        ojobs.append({"kind": "noise_order", "defn": d, "decl": {"container": "set", "perm_seed": i},
+                      "X": [[M.rnd_point(ctx.rng) / 16 for _ in range(width)] for _ in range(4)]})
+    for oj, o in zip(ojobs, ctx.run_impl_jobs("adapter_py.py", ojobs)):
+        ctx.count(["noise-order", oj], True, sample={"sensor_noise": oj["defn"]["sensor_noise"], "result": o})
+        if "error" in o:
+            ctx.broken.append({"kind": "correspondence", "name": "noise-order harness", "detail": str(o["error"])[-600:]})
+            continue
+        a, b = o.get("sorted", {}), o.get("reversed", {})
+        if ("err" in a) != ("err" in b) or ("err" not in a and any(
+                not glue.close(a[f][k_][r_], b[f][k_][r_]) if f == "sensor_noises" else not glue.close(a[f][k_], b[f][k_])
+                for f in ("sensor_noises", "process_noise") for k_ in a[f] for r_ in (a[f][k_] if f == "sensor_noises" else [None]))):
+            ctx.violation(f"fitting (optimiser returning its starting point) leaves the named noise values {b.get('sensor_noises', b)} when the per-sensor noise dictionaries "
+                          f"are declared in reverse key order, {a.get('sensor_noises', a)} when declared in sorted order (given: {oj['defn']['sensor_noise']})",
+                          {"definition": oj["defn"], "X": oj["X"], "sorted": a, "reversed": b}, key="noise-declaration-order")
     r = ctx.run_impl("named_py.py", {"cases": cases})
     kinds = {}
     if "_error" in r:
